@@ -115,6 +115,10 @@ func (l Line3D) ClosestPointOnLine(p vector3.Float64) vector3.Float64 {
 
 	heading := l.p2.Sub(l.p1)
 	magnigutdeMax := heading.Length()
+	if magnigutdeMax == 0 {
+		// degenerate segment: the only point on it
+		return l.p1
+	}
 	heading = heading.Normalized()
 	lhs := p.Sub(l.p1)
 	t := lhs.Dot(heading) / magnigutdeMax
